@@ -538,6 +538,48 @@ func family(fam string, S int, th bool) []*scenario {
 			out = append(out, &scenario{Store: "mem", Pubs: []pub{{Obj: "/a", Ver: 1, L: 3*S + 1}}, Cons: []con{{Obj: "/a", Ver: 1, Slack: sl}}})
 			out = append(out, &scenario{Store: "mem", Pubs: []pub{{Obj: "/a", Ver: 1, L: 3*S + 1}}, Cons: []con{{Obj: "/a", Ver: noVer, Slack: sl}}})
 		}
+	case "burst":
+		// an application that asks for many objects at once: one fetch of a segmented object /a is
+		// running (by versioned name: the fetcher starts at once; by object name: after metadata
+		// discovery) when the application calls Consume for k more objects back-to-back, at ANY
+		// point of the default schedule (the only deviation, see sys.burstOnly), with the ready
+		// select arms run in source order or in reverse (Go's select may pick any ready arm; in
+		// reverse order the fetcher's window check runs while the metadata Interests of the burst
+		// are still queued). Every fetch must complete once with its bytes; the client goroutine
+		// must never wait for room in a queue that only it drains (inst.checkQueues).
+		// quick: k = 1..12 against the scaled window (2) in reverse arm order with the versioned name,
+		// k in {1, 6, 12} by object name, k = 12 in source order; k in {1, 11} against the real window
+		// (10, object of 11 segments) in reverse order. thorough: k = 1..40 everywhere, real window
+		// with k up to 100 and an object of 21 segments.
+		mk := func(order string, ver int64, k, window, n int) {
+			out = append(out, &scenario{Store: "mem", Window: window, Burst: k, Order: order, Pubs: []pub{{Obj: "/a", Ver: 1, L: segs(n)}}, Cons: []con{{Obj: "/a", Ver: ver}}})
+		}
+		if th {
+			for _, order := range []string{"rev", ""} {
+				for _, ver := range []int64{1, noVer} {
+					for k := 1; k <= 40; k++ {
+						mk(order, ver, k, 2, 3)
+					}
+					for _, k := range []int{1, 2, 5, 9, 10, 11, 16, 40, 100} {
+						mk(order, ver, k, 0, 11)
+						mk(order, ver, k, 0, 21)
+					}
+				}
+			}
+		} else {
+			for k := 1; k <= 12; k++ {
+				mk("rev", 1, k, 2, 3)
+			}
+			for _, k := range []int{1, 6, 12} {
+				mk("rev", noVer, k, 2, 3)
+			}
+			mk("", 1, 12, 2, 3)
+			mk("", noVer, 12, 2, 3)
+			for _, k := range []int{1, 11} {
+				mk("rev", 1, k, 0, 11)
+				mk("rev", noVer, k, 0, 11)
+			}
+		}
 	default:
 		report.Fatal("unknown scenario family %q", fam)
 	}
@@ -559,6 +601,7 @@ func build(cfg string) explore.System {
 	case "ver", "rem", "dual", "slack", "lat", "latS", "latT", "reuseS", "cache":
 		s.faceOps = true
 	}
+	s.burstOnly = fam == "burst"
 	s.scen = family(fam, S, thoroughTier())
 	if f := os.Getenv("C15_SCEN"); f != "" { // development aid: only the scenarios whose description contains f
 		var keep []*scenario
@@ -612,10 +655,10 @@ func allConfigs(th bool) []explore.Config {
 	// the k=0 runs come first so that a defect visible on the default schedule is reported with
 	// that (shortest) history
 	c := []explore.Config{cfg("ver", 0), cfg("rem", 0), cfg("dual", 0), cfg("slack", 0), cfg("reuse", 0), cfg("vbound", 0), cfg("cache", 0), cfg("lat", 0), cfg("style", 0), cfg("typed", 0), cfg("long", 0), cfg("tail", 0), cfg("cache", 1), cfg("reuseS", 1),
-		cfg("ver", 1), cfg("rem", 1), cfg("dual", 1), cfg("slack", 1), cfg("typedS", 1), cfg("styleS", 1), cfg("latS", 1), cfg("perm", -1), cfg("tailP", -1), cfg("tail", 1), cfg("fifo", 0), cfg("sched1", 1), cfg("sched2", 2), histCfg(2)}
+		cfg("ver", 1), cfg("rem", 1), cfg("dual", 1), cfg("slack", 1), cfg("typedS", 1), cfg("styleS", 1), cfg("latS", 1), cfg("perm", -1), cfg("tailP", -1), cfg("tail", 1), cfg("fifo", 0), cfg("burst", 1), cfg("sched1", 1), cfg("sched2", 2), histCfg(2)}
 	if th {
 		c = []explore.Config{cfg("ver", 0), cfg("rem", 0), cfg("dual", 0), cfg("slack", 0), cfg("reuse", 0), cfg("vbound", 0), cfg("cache", 0), cfg("lat", 0), cfg("style", 0), cfg("typed", 0), cfg("long", 0), cfg("tail", 0), cfg("cache", 2), cfg("reuseS", 2),
-			cfg("ver", 2), cfg("rem", 2), cfg("dual", 2), cfg("slack", 2), cfg("typed", 1), cfg("typedS", 2), cfg("style", 1), cfg("styleS", 2), cfg("lat", 1), cfg("latT", 2), cfg("perm", -1), cfg("tailP", -1), cfg("tail", 2), cfg("tiny", -1), cfg("fifo", 0),
+			cfg("ver", 2), cfg("rem", 2), cfg("dual", 2), cfg("slack", 2), cfg("typed", 1), cfg("typedS", 2), cfg("style", 1), cfg("styleS", 2), cfg("lat", 1), cfg("latT", 2), cfg("perm", -1), cfg("tailP", -1), cfg("tail", 2), cfg("tiny", -1), cfg("fifo", 0), cfg("burst", 1),
 			cfg("sched1", 1), histCfg(3), cfg("sched3", 3), cfg("sched2", 2)}
 	}
 	return c
@@ -745,7 +788,7 @@ func main() {
 			if th {
 				return 17 * time.Minute // (14 min + the round-7 configurations style k=1, styleS k=2, typed k=1, typedS k=2)
 			}
-			return 70 * time.Second
+			return 66 * time.Second // (70 s less the time the mixed-mode store histories take)
 		},
 		Rule: rule, Assumptions: assumptions,
 		Extra: func(rep *report.Reporter, cov report.Coverage) {
